@@ -933,7 +933,9 @@ def bodyProcessAnswer (go : Call → St → St × Ret) (fd : Nat) (r : Reply) (s
       match s.query? key with
       | none => (s.mfault s!"dangling-qid({r.id})", .other)
       | some q =>
-        let sameQ := q.qtype == r.qtype && q.qclass == r.qclass &&
+        -- the reply must arrive on the connection the query is currently assigned to
+      if q.conn != some fd then (s, .ok) else
+      let sameQ := q.qtype == r.qtype && q.qclass == r.qclass &&
           (if s.cfg.dns0x20 && !q.usingTcp then q.name == r.name else hexLower q.name == hexLower r.name)
         if !sameQ then (s, .ok) else
         -- ares_cookie_validate
